@@ -9,6 +9,7 @@
 //   h_syntax                    stdin: "<mode>\t<hex text>" per line
 //     T  raw tokens             OK \t <type>:<hex contents> ...        (tokenizer::next until eof/invalid)
 //     A  assembly listing       OK \t <listing>      | PARSEERROR
+//     M  preprocess, then A     OK \t <listing> \t <hex preprocessed text> | PPERROR | PARSEERROR \t <hex preprocessed text>
 //     S  str/compile round trip OK \t <listing of code> \t <hex str text> \t <listing of compile(str)> \t <equal 0/1>
 //     P  pretty printer         OK \t <hex pretty text> \t <listing of compile(pretty text)>
 // A listing is structural: instructions separated by ' ', code values expanded recursively:
@@ -170,6 +171,15 @@ int main(int argc, char** argv)
                 auto set = vm.rt->parser_sqf().parse(*vm.rt, text, pi);
                 if (!set.has_value()) return "PARSEERROR";
                 return "OK\t" + listing(*set);
+            }
+            if (mode == "M")
+            {
+                // the text goes through the preprocessor first (macro expansion), the parser sees the expansion
+                auto pp = vm.rt->parser_preprocessor().preprocess(*vm.rt, text, pi);
+                if (!pp.has_value()) return "PPERROR";
+                auto set = vm.rt->parser_sqf().parse(*vm.rt, *pp, pi);
+                if (!set.has_value()) return "PARSEERROR\t" + hex(*pp);
+                return "OK\t" + listing(*set) + "\t" + hex(*pp);
             }
             if (mode == "S")
             {
